@@ -16,6 +16,9 @@ def run(chk):
     from checks import main_wiring as _mw
     _mw.run(chk, [chk.pid])
     ac.timing_theorems(chk, TIMING)
+    # the timed run ends because its poll keeps running: Swim is never deaf (C08 certificate)
+    from vlib import lean as _l8
+    _l8.check_theorems(chk, "Poupool.Properties.C08", ["Poupool.C08.swim_timers"])
     _lean.check_theorems(chk, "Poupool.Properties.Compose", COMPOSE)
 
 
